@@ -27,6 +27,21 @@ _K2_NOTE = ("Trusted: the rxvc VC generator; z3/cvc5; the spec machines in /veri
 _K2_TECH = "K2 class refinement against a spec machine with the call-out discipline (invariant at every call-out), SMT-discharged"
 
 CHECKS = {
+    "C01": {
+        "text": "Two contracts that together cover every edge of every pipeline. (1) AutoDetachObserver and Observer: each method of "
+                "the real class refines a gate spec whose user-callback calls are preceded by the assertion 'no terminal callback was "
+                "invoked yet' (ghost term; invariant term => is_stopped): from any state, on any path, including callbacks that raise "
+                "and re-entrant calls from inside callbacks (invariant proved at every call-out) - so a source that keeps emitting "
+                "after its terminal, terminates twice, or a raising callback cannot produce a call after the terminal one; the "
+                "subscription is disposed on normal and exceptional exit of a terminal callback. (2) Observable.subscribe: for every "
+                "argument shape and every behaviour of the subscribe function the subscriber handed downstream IS such a wrapper, the "
+                "user's callables flow nowhere else, and an exception of the subscribe function is delivered once through fail(); no "
+                "other class in reactivex/ defines subscribe. Since every operator subscribes to its source only through "
+                "Observable.subscribe, the grammar holds at every edge of every pipeline of any depth.",
+        "note": _K2_NOTE.replace("specs/c20.py", "specs/c01.py") + " The current-thread trampoline is used through its contract "
+                "(an action scheduled on an idle trampoline runs at once). Two threads inside one observer are C43's business.",
+        "technique": _K2_TECH + "; symbolic execution of Observable.subscribe over all argument shapes x subscribe-function behaviours",
+    },
     "C20": {
         "text": "Every method of the real Subject (subscribe core, InnerSubscription.dispose, on_next/on_error/on_completed with the "
                 "inherited Observer gates, dispose) is proved to refine the spec machine from an arbitrary state satisfying the coupling "
